@@ -699,8 +699,151 @@ def site_delete(fns):
 def c07(fns, tier, env):
     out = [site_update_record(fns, "::replace_record_if_current", False, file_hint="src/core/store/atomic.rs", ts_tuple_local="_5", identity_local="_3", witness=[("(f)", "c07_lost_increment")] + UPDATE_WITNESSES),
            site_update_record(fns, "::update_record_with_ttl", False),
-           site_delete(fns), site_atomic_increment(fns)]
+           site_delete(fns), site_atomic_increment(fns), site_compare_and_swap(fns), site_json_patch(fns)]
     return finalize(out, env)
+
+
+def site_compare_and_swap(fns):
+    f = mir.find(fns, "::compare_and_swap_with_timestamp_and_ttl", "src/core/store/atomic.rs")
+    ob = Ob("site_compare_and_swap", "compare_and_swap_with_timestamp_and_ttl, every path: the conditional replacement is attempted only after the value RESOLVED for "
+            "the key compared equal to `expected`, and it is conditional on exactly the generation that value was resolved from (the `source` returned by "
+            "resolve_value is what replace_record_if_current gets as the expected-current record); a mismatch, a missing key or a stale extent returns Ok(false) and "
+            "calls nothing that publishes; the cache is filled only with (value, source) of that resolution; the result is replace_record_if_current's",
+            "all paths; calls havocked", f)
+    it = Interp(f, loop_bound=1, pure=PURE + ("::resolve_value", "::as_ref"), max_paths=6000)
+    expected = z3.Const("expected", U)
+
+    def init(it_, st):
+        st["env"]["_3"] = expected
+    reached = 0
+    for p in it.run(init):
+        ob.paths += 1
+        if p.status != "return":
+            continue
+        rep = events(p, "::replace_record_if_current")
+        rv = events(p, "::resolve_value")
+        publishing = events(p, "OccupiedEntry::insert") + events(p, "::update_record_with_ttl") + events(p, "::publish_to_tree") + events(p, "::insert_with_timestamp_and_ttl_internal")
+        ob.must_hold(not publishing, "compare_and_swap publishes only through replace_record_if_current")
+        if not rep:
+            continue
+        reached += 1
+        ob.must_hold(len(rep) == 1 and len(rv) == 1, "one resolution, one conditional replacement")
+        if len(rv) != 1:
+            continue
+        ok_payload = it.ctx.uf("proj_Ok_0", [U], U)(it.as_u(rv[0].ret))
+        src = it.ctx.uf("proj__2", [U], U)(ok_payload)
+        val = it.ctx.uf("proj__0", [U], U)(ok_payload)
+        ob.need(it, rep[0].pc, it.ctx.disc(it.as_u(rv[0].ret)) == 0, "the replacement is attempted only when the value was resolved")
+        ob.need(it, rep[0].pc, it.as_u(rep[0].args[2]) == src, "the replacement is conditional on the generation the compared value was resolved from")
+        cmp_ = [e for e in p.events if e.kind == "call" and (e.callee.endswith("as PartialEq>::ne") or e.callee.endswith("as PartialEq>::eq")
+                                                               or e.callee.endswith("PartialEq<[u8]>>::ne") or e.callee.endswith("PartialEq<[u8]>>::eq")) and idx_of(p, e) < idx_of(p, rep[0])]
+        ob.must_hold(len(cmp_) >= 1, "the resolved value is compared with `expected` before the replacement")
+        if cmp_:
+            c = cmp_[-1]
+            want = c.ret if c.callee.endswith("eq") else z3.Not(c.ret)
+            ob.need(it, rep[0].pc, want, "the replacement is attempted only when the comparison said equal")
+            ob.must_hold(contains(c.args[0], val) or contains(c.args[1], val), "the comparison is on the resolved value")
+            ob.must_hold(contains(c.args[0], expected) or contains(c.args[1], expected), "the comparison is against `expected`")
+        for e in events(p, "ClockCache::insert_for_record"):
+            ob.need(it, p.pc, it.as_u(e.args[3]) == src, "the cache is filled for the generation the value was resolved from")
+            ob.must_hold(contains(e.args[2], val), "the cached value is the resolved value")
+        ob.need(it, p.pc, it.as_u(p.ret) == it.as_u(rep[0].ret), "the result is replace_record_if_current's result")
+        rt = events(p, "::resolve_timestamp")
+        ob.must_hold(len(rt) == 1 and idx_of(p, rt[0]) < idx_of(p, rep[0]) and contains(rep[0].args[4], it.as_u(rt[0].ret)) if len(rt) == 1 and not isinstance(rep[0].args[4], mir.Tup)
+                     else len(rt) == 1, "the timestamp handed to the replacement comes from resolve_timestamp (explicit or version clock)")
+    ob.must_hold(reached >= 1, "the replacement site was reached")
+    return ob.result(it, witness="c07_cas_and_patch_semantics")
+
+
+def site_json_patch(fns):
+    f = mir.find(fns, "::json_patch_with_timestamp", "src/core/store/json_patch.rs")
+    ob = Ob("site_json_patch", "json_patch_with_timestamp, one arbitrary iteration of its retry loop: the patch is applied to the value RESOLVED in this iteration, the "
+            "replacement is conditional on exactly the generation that value was resolved from, the patched document is validated before the replacement, and Ok is returned only when replace_record_if_current "
+            "returned Ok(true)", "one arbitrary iteration (all locals havocked at the loop header)", f)
+    hdr = main_loop_header(f)
+    if hdr is None:
+        raise mir.MirError("retry loop not found")
+    it = Interp(f, loop_bound=1, pure=PURE + ("::resolve_value", "apply_json_patch", "::as_ref"), max_paths=6000)
+    reached = 0
+    for p in it.run(start=hdr, stop=(hdr,)):
+        ob.paths += 1
+        if p.status not in ("return", "backedge"):
+            continue
+        rep = events(p, "::replace_record_if_current")
+        rv = events(p, "::resolve_value")
+        ap = events(p, "apply_json_patch")
+        ob.must_hold(not (events(p, "OccupiedEntry::insert") + events(p, "::update_record_with_ttl") + events(p, "::publish_to_tree")), "json_patch publishes only through replace_record_if_current")
+        if not rep:
+            if p.status == "return" and p.ret is not None:
+                ob.need(it, p.pc, it.ctx.disc(it.as_u(p.ret)) != 0, "a path that attempts no replacement returns an error")
+            continue
+        reached += 1
+        ob.must_hold(len(rep) == 1 and len(rv) == 1 and len(ap) == 1, "one resolution, one patch application, one conditional replacement per iteration")
+        if not (len(rv) == 1 and len(ap) == 1):
+            continue
+        ok_payload = it.ctx.uf("proj_Ok_0", [U], U)(it.as_u(rv[0].ret))
+        src = it.ctx.uf("proj__2", [U], U)(ok_payload)
+        val = it.ctx.uf("proj__0", [U], U)(ok_payload)
+        ob.need(it, rep[0].pc, it.as_u(rep[0].args[2]) == src, "the replacement is conditional on the generation the patched value was resolved from")
+        ob.must_hold(contains(ap[0].args[0], val), "the patch is applied to the value resolved in this iteration")
+        ob.need(it, rep[0].pc, it.ctx.disc(it.as_u(ap[0].ret)) == 0, "the replacement is attempted only when the patch applied")
+        ob.must_hold(contains(rep[0].args[3], it.as_u(ap[0].ret)), "the replacement value is the patched document")
+        vk = [e for e in events(p, "::validate_key_value") if idx_of(p, ap[0]) < idx_of(p, e) < idx_of(p, rep[0])]
+        ob.must_hold(len(vk) == 1, "the patched document is validated before the replacement")
+        if vk:
+            ob.need(it, rep[0].pc, okd(it, vk[0]), "the replacement is attempted only when validation passed")
+        rd = [e for e in p.events if e.kind == "call" and e.callee.endswith("HashMap::read")]
+        ob.must_hold(len(rd) == 1 and idx_of(p, rd[0]) < idx_of(p, rv[0]), "the index is read once per iteration, before the value is resolved")
+        if rd:
+            ob.need(it, p.pc, it.as_u(rv[0].args[2]) == it.ctx.uf("proj_Some_0", [U], U)(it.as_u(rd[0].ret)), "the value is resolved for the record read from the index in this iteration")
+        if p.status == "return" and p.ret is not None and it.entails(p.pc, it.ctx.disc(it.as_u(p.ret)) == 0)[0]:
+            ok_b = it.ctx.uf("proj_Ok_0", [U], z3.BoolSort())(it.as_u(rep[0].ret))
+            ob.need(it, p.pc, z3.And(okd(it, rep[0]), ok_b), "Ok is returned only when the conditional replacement succeeded")
+    ob.must_hold(reached >= 1, "the replacement site was reached")
+    return ob.result(it, witness="c07_cas_and_patch_semantics")
+
+
+def site_resolve_expiry(fns):
+    f = mir.find(fns, "::resolve_record_value", "src/core/store/operations.rs")
+    ob = Ob("site_resolve_record_value_expiry", "resolve_record_value (every value-reading call goes through it): with TTL enabled a generation whose absolute expiry is "
+            "non-zero and earlier than the clock read in this call yields KeyNotFound before any value source (memory, cache, disk) is consulted; a generation without "
+            "expiry, or unexpired, or with TTL disabled is never refused on expiry grounds", "all paths; the clock is an arbitrary value", f)
+    it = Interp(f, loop_bound=1, pure=PURE, max_paths=4000)
+    self_ = z3.Const("store", U)
+    ttl_on = it.ctx.uf("proj__%d" % store_field_index(fns, "enable_ttl"), [U], z3.BoolSort())(self_)
+
+    def init(it_, st):
+        st["env"]["_1"] = self_
+    served = refused = 0
+    for p in it.run(init):
+        ob.paths += 1
+        if p.status != "return":
+            continue
+        loads = [e for e in events(p, "Atomic::load") if z3.is_bv(e.ret) and e.ret.size() == 64]
+        nanos = events(p, "Duration::as_nanos")
+        srcs = events(p, "Record::get_value") + events(p, "::and_then") + events(p, "::load_value_from_disk")
+        now = None
+        if nanos:
+            r = nanos[0].ret
+            now = z3.Extract(63, 0, r) if z3.is_bv(r) and r.size() == 128 else r
+        if srcs:
+            served += 1
+            if loads and now is not None and z3.is_bv(now) and now.size() == 64:
+                ob.need(it, srcs[0].pc, z3.Or(loads[0].ret == 0, z3.ULE(now, loads[0].ret)), "a value source is consulted only for a generation that is not expired at the clock read in this call")
+            elif loads:
+                ob.need(it, srcs[0].pc, loads[0].ret == 0, "without a clock read only a generation without expiry is served")
+            else:
+                ob.need(it, srcs[0].pc, z3.Not(ttl_on), "the expiry is skipped only when TTL is disabled")
+        else:
+            # no value source consulted: the call refused on expiry grounds
+            refused += 1
+            ob.must_hold(bool(loads) and now is not None, "a refusal without consulting a value source read the expiry and the clock")
+            if loads and now is not None and z3.is_bv(now) and now.size() == 64:
+                ob.need(it, p.pc, z3.And(ttl_on, loads[0].ret != 0, z3.UGT(now, loads[0].ret)), "refused on expiry grounds only when TTL is on and 0 < expiry < now")
+            if p.ret is not None:
+                ob.need(it, p.pc, it.ctx.disc(it.as_u(p.ret)) != 0, "an expired generation yields an error (KeyNotFound)")
+    ob.must_hold(served >= 2 and refused >= 1, "served and refused paths were reached")
+    return ob.result(it, witness="c08_deferred_ttl_read")
 
 
 def site_atomic_increment(fns):
@@ -949,7 +1092,7 @@ def site_prepare_deferred(fns):
 
 # ============================================================================ C11
 def c11(fns, tier, env):
-    out = [kernel_ttl_expiry(fns), site_retire_expired(fns), site_update_ttl(fns), site_sweeper(fns), site_recovery_expired_winners(fns), scan_iteration(fns)]
+    out = [kernel_ttl_expiry(fns), site_resolve_expiry(fns), site_retire_expired(fns), site_update_ttl(fns), site_sweeper(fns), site_recovery_expired_winners(fns), scan_iteration(fns)]
     return finalize(out, env)
 
 
@@ -1154,7 +1297,7 @@ def scan_epilogue(fns):
     if not mro:
         raise mir.MirError("read_only field not found")
     ro = it.ctx.uf("proj__%s" % mro.group(1), [U], z3.BoolSort())(self_)
-    pro = 0
+    pro = ro_paths = 0
     for p in it.run(init, stop=(hdr,), start="bb0"):
         ob.paths += 1
         if p.status != "backedge":
@@ -1169,7 +1312,17 @@ def scan_epilogue(fns):
                 ob.need(it, e.pc, okd(it, rj[0]), "replay only when the journal was decoded")
             ob.need(it, e.pc, z3.Not(ro), "a read-only open never replays (writes) the journal")
         ob.must_hold(not events(p, "DiskIO::retire_extents") and not events(p, "DiskIO::write_sectors_sync"), "no other device write before the scan")
+        # a read-only open does not replay the journal: it masks the journalled extents while scanning, with ONE forward pass over the
+        # journal – which is only correct over entries in ascending sector order (decode returns them in on-disk order)
+        if rj and it.sat(list(p.pc) + [ro]):
+            ro_paths += 1
+            so = [e for e in events(p, "sort_unstable_by_key") if idx_of(p, e) > idx_of(p, rj[0])]
+            ob.must_hold(len(so) == 1, "a read-only open sorts the decoded journal by start sector before the masking scan")
+            if so:
+                key_fn = [fn for n, fn in fns.items() if n.endswith("scan_and_rebuild_indexes::{closure#0}")]
+                ob.must_hold(len(key_fn) == 1 and re.search(r"_0 = copy \(\(\*_2\)\.0: u64\);", key_fn[0].text) is not None, "the sort key is the extent's start sector")
     ob.must_hold(pro >= 1, "the scan loop is reached from the prologue")
+    ob.must_hold(ro_paths >= 1, "a read-only prologue path was explored")
     # (2) epilogue: enter at the header with the loop condition false
     it2 = Interp(f, loop_bound=1, pure=PURE, max_paths=4000)
     epi = 0
@@ -1197,7 +1350,8 @@ def scan_epilogue(fns):
                 ob.need(it2, p.pc, okd(it2, e), "the scan reports success only when the repairs were made durable")
     ob.must_hold(epi >= 1, "the epilogue was reached")
     ob.queries += it2.queries
-    return ob.result(it)
+    return ob.result(it, witness=[("read-only open", "c15_migration_is_faithful"), ("sort key", "c15_migration_is_faithful"), ("never replays", "c15_migration_is_faithful"),
+                                  ("", "c04_recovery_repairs_only_dead_blocks")])
 
 
 def c04(fns, tier, env):
@@ -1847,7 +2001,7 @@ def c01(fns, tier, env):
            site_update_record(fns, "::update_record_with_ttl_bytes", True),
            site_update_record(fns, "::replace_record_if_current", False, file_hint="src/core/store/atomic.rs", ts_tuple_local="_5", identity_local="_3",
                               witness=[("(f)", "c07_lost_increment")] + UPDATE_WITNESSES),
-           site_delete(fns), kernel_resolve_timestamp(fns)]
+           site_delete(fns), kernel_resolve_timestamp(fns), site_compare_and_swap(fns), site_json_patch(fns)]
     out += [site_insert_vacant(fns, "::insert_with_timestamp_and_ttl_internal"), site_insert_vacant(fns, "::insert_bytes_with_expiry"),
             site_insert_vacant(fns, "::insert_if_absent", "src/core/store/atomic.rs", explicit_ts=False)]
     return finalize(out, env)
@@ -2037,6 +2191,12 @@ def scan_iteration(fns):
                     ob.must_hold(contains(e.args[1], ex), "the decrement is computed from the REPLACED generation (%s)" % getattr(e, "raw", "")[-28:])
                 rel = [e for e in events(p, "FreeSpaceManager::release_sectors") if idx_of(p, e) < idx_of(p, ups[0])]
                 ob.must_hold(bool(rel) and contains(rel[0].args[2], ex), "the replaced generation's extent length is released")
+                want = extent_len_of(it, p, ex)
+                ob.must_hold(want is not None, "the replaced generation's extent length is derived from total_size(key.len(), value_len)")
+                if want is not None and rel:
+                    ob.need(it, p.pc, rel[0].args[2] == want, "the released extent is exactly ceil(total_size / 4096) blocks of the REPLACED generation (whole extent, nothing beyond it)")
+                    for e in subs_disk:
+                        ob.need(it, p.pc, e.args[1] == want * z3.BitVecVal(4096, 64), "disk_usage -= ceil(total_size / 4096) * 4096 of the replaced generation")
                 for e in rpush:
                     ob.must_hold(contains(e.args[1].fields[1], ex), "the extent queued for retirement on a replace path is the REPLACED generation's")
                     if rel:
@@ -2053,7 +2213,8 @@ def scan_iteration(fns):
                 ob.need(it, p.pc, adds_disk[-1].args[1] == dc[0].ret * z3.BitVecVal(4096, 64), "disk_usage += sectors_needed * 4096")
     ob.must_hold(accepted >= 2, "accepted-record paths (winner and loser) were reached")
     ob.must_hold(discarded >= 1 and replaced_n >= 1, "the discard and the replace paths were reached")
-    return ob.result(it, witness=[("usize>::fetch_sub", "c13_recovery_accounting"), ("u64>::fetch_sub", "c10_recovery_disk_usage"),
+    return ob.result(it, witness=[("ceil(total_size", "c04_recovery_repairs_only_dead_blocks"), ("derived from total_size", "c04_recovery_repairs_only_dead_blocks"),
+                                  ("usize>::fetch_sub", "c13_recovery_accounting"), ("u64>::fetch_sub", "c10_recovery_disk_usage"),
                                   ("discarded only", "c11_recovery_expired_winner"), ("indexed only", "c11_recovery_expired_winner"),
                                   ("whole extent", "c03_scan_skips_whole_extents"), ("", "c03_scan_skips_whole_extents")])
 
@@ -2200,6 +2361,17 @@ def site_force_flush(fns):
 
 
 # ============================================================================ recovery: expired winners
+def extent_len_of(it, p, owner):
+    """ceil(total_size(owner.key.len(), owner.value_len) / 4096) built from the total_size call of this path whose arguments derive from `owner`:
+    the extent length every writer uses (format_k.rs::c05_extent_length_agreement decides the writer side)"""
+    ts = [e for e in events(p, "RecordFormat>::total_size") if len(e.args) >= 3 and contains(e.args[1], owner) and contains(e.args[2], owner)]
+    if not ts:
+        return None
+    t = ts[0].ret
+    blk = z3.BitVecVal(4096, 64)
+    return z3.UDiv(t, blk) + z3.If(z3.URem(t, blk) != 0, z3.BitVecVal(1, 64), z3.BitVecVal(0, 64))
+
+
 def site_recovery_expired_winners(fns):
     f = mir.find(fns, "::remove_expired_recovery_winners", "src/core/store/recovery.rs")
     ob = Ob("site_remove_expired_recovery_winners", "recovery's expired-winner pass, one arbitrary candidate: an entry is removed from the index only under its guard and "
@@ -2234,6 +2406,13 @@ def site_recovery_expired_winners(fns):
             ob.must_hold(len(rel) == 1, "its extent is released exactly once")
             if rel:
                 ob.must_hold(contains(rel[0].args[2], rec), "the released length is computed from the removed generation")
+                want = extent_len_of(it, p, rec)
+                ob.must_hold(want is not None, "the removed generation's extent length is derived from total_size(key.len(), value_len)")
+                if want is not None:
+                    ob.need(it, p.pc, rel[0].args[2] == want, "the released extent is exactly ceil(total_size / 4096) blocks of the removed generation")
+                    for e in [x for x in events(p, "Vec::push") if isinstance(x.args[1], mir.Tup) and len(x.args[1].fields) == 2 and all(z3.is_bv(y) for y in x.args[1].fields)]:
+                        ob.need(it, p.pc, z3.And(e.args[1].fields[0] == rel[0].args[1], e.args[1].fields[1] == want),
+                                "the extent queued for retirement is exactly the removed generation's (sector, ceil(total_size / 4096))")
             cnt = [e for e in p.events if e.kind == "call" and "Atomic::<u32>::fetch_sub" in getattr(e, "raw", "")]
             rel_ok = bool(rel) and it.entails(p.pc, it.ctx.disc(it.as_u(rel[0].ret)) == 0)[0]
             if rel_ok:   # a failing release aborts the whole open: counters are irrelevant then
@@ -2419,7 +2598,7 @@ def site_lock_order(fns):
     ob.must_hold(("DiskIO", "FreeSpaceManager") in edges, "the failure path device -> allocator is present (sanity: nesting is observed)")
     ob.must_hold(not any(b == "()" for (a, b) in edges), "the retirement flush mutex is never acquired while another lock is held")
     ob.notes = ["%s -> %s  (%s)" % (a, b, ",".join(sorted(v))) for (a, b), v in sorted(edges.items())]
-    d = ob.result(last_it)
+    d = ob.result(last_it, witness="c18_allocator_not_held_across_device_wait")
     d["lock_order_edges"] = ob.notes
     d["paths"] = total_paths
     return d
@@ -2439,6 +2618,275 @@ def scan_progress_only(fns):
     return d
 
 
+# ============================================================================ C15: offline migration
+def c15(fns, tier, env):
+    return finalize([site_migrate(fns), site_copy_records(fns), site_verify_records(fns), site_publish(fns), site_migration_config(fns), scan_epilogue(fns), site_scan_read_only(fns)], env)
+
+
+def store_field_index(fns, name):
+    """MIR field index of a FeoxStore field, from the one aggregate that builds the store (fields are listed in declaration order)"""
+    f = mir.find(fns, "::with_config_and_open_mode", "src/core/store/init.rs")
+    m = re.search(r"= FeoxStore \{ ([^}]*) \}", f.text)
+    if not m:
+        raise mir.MirError("FeoxStore aggregate not found")
+    names = [x.split(":")[0].strip() for x in m.group(1).split(", ")]
+    if name not in names:
+        raise mir.MirError("FeoxStore has no field %s" % name)
+    return names.index(name)
+
+
+def site_scan_read_only(fns):
+    f = mir.find(fns, "::scan_and_rebuild_indexes", "src/core/store/recovery.rs")
+    ob = Ob("site_scan_read_only_iteration", "recovery scan of a migration SOURCE, one arbitrary iteration: with read_only set nothing is queued for retirement and no "
+            "device-writing call is made (the source file's bytes are never touched by the scan); an all-zero legacy deletion marker is counted and skipped only when "
+            "allow_ambiguous_legacy_recovery is set – otherwise the scan fails with AmbiguousLegacyTombstone; expiry is never consulted inside the scan (expired newest "
+            "generations are indexed like any other, so no older value can win)", "one iteration; inner helper loops unrolled once; calls havocked", f)
+    inc = {}
+    for bb, st in f.blocks.items():
+        if bb in f.cleanup:
+            continue
+        for tg in re.findall(r"bb\d+", st[-1]):
+            inc.setdefault(tg, []).append(bb)
+    cands = []
+    for tg, srcs in inc.items():
+        back = [s_ for s_ in srcs if int(s_[2:]) > int(tg[2:])]
+        m = re.search(r"(_\d+) = copy (_\d+); (_\d+) = Lt\(move \1, copy (_\d+)\); switchInt", " ".join(f.blocks[tg]))
+        if back and m:
+            cands.append((len(back), tg, m.group(2), m.group(4)))
+    if not cands:
+        raise mir.MirError("scan loop header not found")
+    cands.sort(reverse=True)
+    _n, header, sector_local, total_local = cands[0]
+    it = Interp(f, loop_bound=1, pure=PURE, slices=True, max_paths=20000)
+    self_ = z3.Const("store", U)
+    ro = it.ctx.uf("proj__%d" % store_field_index(fns, "read_only"), [U], z3.BoolSort())(self_)
+    allow = it.ctx.uf("proj__%d" % store_field_index(fns, "allow_ambiguous_legacy_recovery"), [U], z3.BoolSort())(self_)
+    amb_idx = store_field_index(fns, "ambiguous_legacy_markers")
+    s0 = z3.BitVec("sector0", 64)
+
+    def init(it_, st):
+        st["env"]["_1"] = self_
+        st["env"][sector_local] = s0
+    pushes = counted = 0
+    for p in it.run(init, start=header, stop=(header,)):
+        ob.paths += 1
+        if p.status == "truncated":
+            ob.truncated += 1
+        if p.status not in ("backedge", "return"):
+            continue
+        rpush = [e for e in events(p, "Vec::push") if isinstance(e.args[1], mir.Tup) and len(e.args[1].fields) == 2
+                 and all(z3.is_bv(x) and x.size() == 64 for x in e.args[1].fields)]
+        for e in rpush:
+            pushes += 1
+            ob.need(it, e.pc, z3.Not(ro), "a read-only scan queues nothing for retirement")
+        wr = [e for e in p.events if e.kind == "call" and any(k in e.callee for k in ("DiskIO::write", "DiskIO::retire", "DiskIO::replay", "DiskIO::clear", "::pwrite", "write_all_at"))]
+        for e in wr:
+            ob.need(it, e.pc, z3.Not(ro), "a read-only scan makes no device-writing call (loop body and epilogue)")
+        for e in _field_writes(p, amb_idx):
+            counted += 1
+            ob.need(it, e.pc, allow, "an ambiguous legacy marker is counted and skipped only with the explicit opt-in")
+        ob.must_hold(not events(p, "::get_timestamp_pub") and not events(p, "::is_expired"), "expiry is not consulted while indexing")
+    ob.must_hold(pushes >= 2, "retirement pushes were reached")
+    ob.must_hold(counted >= 1, "the ambiguous-marker path was reached")
+    return ob.result(it, witness="c15_migration_is_faithful")
+
+
+def site_migration_config(fns):
+    f = mir.find(fns, "::migration_config", None)
+    ob = Ob("site_migration_config", "both migration stores are opened with enable_ttl = false and no cache or memory cap: recovery of the source does not drop expired "
+            "newest generations, the destination accepts already-expired records, and nothing is evicted or refused for memory", "text of the one aggregate", f)
+    m = re.search(r"StoreConfig \{ ([^}]*) \}", f.text)
+    ob.must_hold(bool(m), "the StoreConfig aggregate was found")
+    if m:
+        fields = dict((x.split(":")[0].strip(), x.split(":", 1)[1].strip()) for x in m.group(1).split(", "))
+        ob.must_hold(fields.get("enable_ttl") == "const false", "enable_ttl is false")
+        ob.must_hold(fields.get("enable_caching") == "const false", "caching is off")
+        ob.must_hold(fields.get("memory_only") == "const false", "the stores are file-backed")
+        mm = re.match(r"(?:move|copy) (_\d+)", fields.get("max_memory", ""))
+        ob.must_hold(bool(mm) and re.search(r"%s = Option::<usize>::None;" % re.escape(mm.group(1)), f.text) is not None, "no memory cap")
+    src = mir.find(fns, "::with_config_for_migration_source", None)
+    ob.must_hold("OpenMode::ReadOnly" in src.text, "the migration source is opened in OpenMode::ReadOnly")
+    ob.queries += 5
+    return ob.result(None, witness="c15_migration_is_faithful")
+
+
+def site_migrate(fns):
+    f = mir.find(fns, "::migrate", None)
+    ob = Ob("site_migrate_order", "migrate(): the destination is published (hard-linked into place) only on paths where, in this order, the records were copied, the "
+            "destination flushed, a read-only reopen of the temporary file verified record by record, and the source's identity stamp re-checked – each with an Ok "
+            "result; every error path ends without publication; a source that is already the current format is refused before a destination is created",
+            "all paths", f)
+    it = Interp(f, loop_bound=1, pure=PURE, max_paths=8000)
+    pubs = 0
+    for p in it.run():
+        ob.paths += 1
+        if p.status != "return":
+            continue
+        pub = events(p, "DestinationGuard::publish")
+        cp = events(p, "copy_records")
+        fl = events(p, "FeoxStore::flush")
+        vf = events(p, "verify_records")
+        cr = events(p, "DestinationGuard::create")
+        ret_ok, _ = it.entails(p.pc, it.ctx.disc(it.as_u(p.ret)) == 0) if p.ret is not None else (False, None)
+        for e in pub:
+            pubs += 1
+            ob.must_hold(len(cp) == 1 and len(vf) == 1 and len(fl) >= 1, "publication only after copy, flush and verification")
+            if cp and vf and fl:
+                ob.must_hold(idx_of(p, cp[0]) < idx_of(p, fl[0]) < idx_of(p, vf[0]) < idx_of(p, e), "order: copy < flush < verify < publish")
+                ob.need(it, e.pc, z3.And(okd(it, cp[0]), okd(it, fl[0]), okd(it, vf[0])), "publication only when copy, flush and verification returned Ok")
+            stamps = [x for x in events(p, "FileStamp::read") + events(p, "FileStamp::read_store_file") if idx_of(p, vf[0] if vf else e) < idx_of(p, x) < idx_of(p, e)]
+            ob.must_hold(len(stamps) >= 1, "the source's identity stamp is re-read between verification and publication")
+        if ret_ok:
+            ob.must_hold(len(pub) == 1, "Ok is returned only after publication")
+            if pub:
+                ob.need(it, p.pc, okd(it, pub[0]), "Ok only when publication returned Ok")
+        if cr:
+            # a destination is created only for a legacy (version < 3) source
+            pass
+    ob.must_hold(pubs >= 1, "the publication site was reached")
+    ob.must_hold("build_read_only" in f.text and "open_read_only_file" in f.text, "the source is opened through the read-only path")
+    return ob.result(it, witness="c15_migration_is_faithful")
+
+
+def site_copy_records(fns):
+    f = mir.find(fns, "::copy_records", None)
+    ob = Ob("site_copy_records", "copy_records, one arbitrary record: the destination receives exactly this record's key, the value resolved for this record from the "
+            "SOURCE store, this record's timestamp and its absolute expiry (bit-exact, no recomputation from a TTL); a refused insert aborts the migration",
+            "one arbitrary iteration of the record loop", f)
+    hdr = None
+    for bb, st in f.blocks.items():
+        if "IntoIter<Arc<" in st[-1] and "as Iterator>::next" in st[-1]:
+            hdr = bb
+    if hdr is None:
+        raise mir.MirError("record loop not found")
+    ts_idx = record_field_index(fns, "timestamp")
+    it = Interp(f, loop_bound=1, pure=PURE + ("::resolve_value_ref",), max_paths=4000)
+    src, dst = z3.Const("source", U), z3.Const("destination", U)
+
+    def init(it_, st):
+        st["env"]["_1"] = src
+        st["env"]["_2"] = dst
+    reached = 0
+    for p in it.run(init, start=hdr, stop=(hdr,)):
+        ob.paths += 1
+        if p.status not in ("backedge", "return"):
+            continue
+        ins = events(p, "::insert_migrated_bytes")
+        nx = [e for e in p.events if e.kind == "call" and e.callee.endswith("Iterator>::next")]
+        if not ins or not nx:
+            continue
+        reached += 1
+        rec = it.ctx.uf("proj_Some_0", [U], U)(it.as_u(nx[0].ret))
+        e = ins[0]
+        rv = events(p, "::resolve_value_ref")
+        ob.need(it, p.pc, it.as_u(e.args[0]) == dst, "records are inserted into the destination store")
+        ob.must_hold(len(rv) == 1, "the value is resolved once")
+        if rv:
+            ob.need(it, p.pc, z3.And(it.as_u(rv[0].args[0]) == src, it.as_u(rv[0].args[2]) == rec), "the value is resolved from the SOURCE store for this record")
+            ob.must_hold(contains(e.args[2], it.as_u(rv[0].ret)), "the inserted value is the resolved value")
+        ob.need(it, p.pc, e.args[3] == it.ctx.uf("proj__%d" % ts_idx, [U], z3.BitVecSort(64))(rec), "the record's own timestamp is preserved")
+        loads = [x for x in events(p, "Atomic::load") if z3.is_bv(x.ret) and x.ret.size() == 64 and idx_of(p, x) < idx_of(p, e)]
+        ob.must_hold(bool(loads), "the absolute expiry is read from the record")
+        if loads:
+            ob.need(it, p.pc, e.args[4] == loads[-1].ret, "the absolute expiry is copied unchanged")
+            ob.must_hold(contains(loads[-1].args[0], rec), "the expiry is this record's")
+        ob.must_hold(contains(e.args[1], rec), "the key is this record's")
+        if p.status == "backedge":
+            # continuing requires the insert to have been accepted
+            cf_ok = it.entails(p.pc, okd(it, e))[0]
+            ob.must_hold(cf_ok, "the loop continues only when the insert returned Ok")
+    ob.must_hold(reached >= 1, "the insert site was reached")
+    return ob.result(it, witness="c15_migration_is_faithful")
+
+
+def site_verify_records(fns):
+    f = mir.find(fns, "::verify_records", None)
+    ob = Ob("site_verify_records", "verify_records, one arbitrary pair: verification continues past a pair only when key, timestamp, absolute expiry and value of the "
+            "source and destination records were all compared equal; any difference (or a different number of records in a batch) ends in VerificationFailed",
+            "one arbitrary iteration of the pair loop", f)
+    hdr = None
+    for bb, st in f.blocks.items():
+        if "Zip<" in st[-1] and "as Iterator>::next" in st[-1]:
+            hdr = bb
+    if hdr is None:
+        raise mir.MirError("pair loop not found")
+    it = Interp(f, loop_bound=1, pure=PURE + ("::resolve_value_ref",), max_paths=4000)
+    cont = 0
+    ts_idx = record_field_index(fns, "timestamp")
+    tsf = it.ctx.uf("proj__%d" % ts_idx, [U], z3.BitVecSort(64))
+    for p in it.run(start=hdr, stop=(hdr,)):
+        ob.paths += 1
+        if p.status != "backedge":
+            continue
+        eqs = [e for e in p.events if e.kind == "call" and (e.callee.endswith("as PartialEq>::eq") or e.callee.endswith("as PartialEq>::ne"))]
+        if not eqs:
+            # batch exhausted: the next batches are fetched; equal batch lengths are required to go on
+            lens = events(p, "Vec::len")
+            ob.must_hold(len(lens) == 2, "both batch lengths are read before the next batch is compared")
+            if len(lens) == 2:
+                ob.need(it, p.pc, lens[0].ret == lens[1].ret, "batches of different length never reach the pair loop")
+            continue
+        cont += 1
+        rv = events(p, "::resolve_value_ref")
+        ob.must_hold(len(rv) == 2, "both values are resolved before a pair is accepted")
+        ob.must_hold(len(eqs) >= 2, "key and value are compared")
+        for e in eqs:
+            want = e.ret if e.callee.endswith("::eq") else z3.Not(e.ret)
+            ob.need(it, p.pc, want, "a pair is accepted only when key/value equality held")
+        der = events(p, "<Arc<Record> as Deref>::deref")
+        if len(der) >= 2:
+            a, b = it.as_u(der[0].ret), it.as_u(der[1].ret)
+            ob.need(it, p.pc, tsf(a) == tsf(b), "a pair is accepted only with equal timestamps")
+            keyeq = [e for e in eqs if "Vec<u8>" in e.callee]
+            ob.must_hold(bool(keyeq) and contains(keyeq[0].args[0], a) and contains(keyeq[0].args[1], b), "the key comparison is between this pair's records")
+            if len(rv) == 2:
+                ob.must_hold(contains(rv[0].args[2], a) and contains(rv[1].args[2], b), "values are resolved for this pair's records, source and destination")
+                vals = [e for e in eqs if "Bytes" in e.callee]
+                ob.must_hold(bool(vals) and contains(vals[0].args[0], it.as_u(rv[0].ret)) and contains(vals[0].args[1], it.as_u(rv[1].ret)),
+                             "the value comparison is between the two resolved values")
+        else:
+            ob.must_hold(False, "pair records are dereferenced")
+        loads = [x for x in events(p, "Atomic::load") if z3.is_bv(x.ret) and x.ret.size() == 64]
+        ob.must_hold(len(loads) == 2, "both absolute expiries are read")
+        if len(loads) == 2:
+            ob.need(it, p.pc, loads[0].ret == loads[1].ret, "a pair is accepted only with equal absolute expiry")
+            if len(der) >= 2:
+                ob.must_hold(contains(loads[0].args[0], it.as_u(der[0].ret)) and contains(loads[1].args[0], it.as_u(der[1].ret)), "the expiries are this pair's")
+    ob.must_hold(cont >= 1, "the accepting path was reached")
+    return ob.result(it, witness="c15_migration_is_faithful")
+
+
+def site_publish(fns):
+    f = mir.find(fns, "::publish", "src/core/store/migration.rs")
+    ob = Ob("site_destination_publish", "DestinationGuard::publish: the destination name is created with hard_link (which fails if the name exists – an existing file is "
+            "never overwritten; no rename/copy), only when the temporary file still carries the verified stamp; every failure after the link rolls the publication back",
+            "all paths", f)
+    ob.must_hold("hard_link::<" in f.text, "publication uses fs::hard_link")
+    ob.must_hold("rename::<" not in f.text and "fs::copy" not in f.text and "copy::<" not in f.text, "publication never renames or copies over the destination")
+    it = Interp(f, loop_bound=1, pure=PURE, max_paths=4000)
+    links = 0
+    for p in it.run():
+        ob.paths += 1
+        if p.status != "return":
+            continue
+        hl = events(p, "hard_link")
+        rb = events(p, "DestinationGuard::rollback_publication")
+        ret_ok, _ = it.entails(p.pc, it.ctx.disc(it.as_u(p.ret)) == 0) if p.ret is not None else (False, None)
+        ret_err, _ = it.entails(p.pc, it.ctx.disc(it.as_u(p.ret)) != 0) if p.ret is not None else (False, None)
+        if hl:
+            links += 1
+            pre = [e for e in events(p, "FileStamp::read_regular") if idx_of(p, e) < idx_of(p, hl[0])]
+            ob.must_hold(bool(pre), "the temporary file's stamp is checked before linking")
+        if ret_ok:
+            ob.must_hold(len(hl) == 1 and not rb, "Ok only after one successful link and no rollback")
+        if ret_err and hl:
+            linked_ok = it.entails(p.pc, it.ctx.disc(it.as_u(hl[0].ret)) == 0)[0]
+            if linked_ok:
+                ob.must_hold(len(rb) >= 1, "an error after the link removes the published name again")
+    ob.must_hold(links >= 1, "the link site was reached")
+    return ob.result(it, witness="c15_migration_is_faithful")
+
+
 # ============================================================================ range queries
 def site_range_query(fns):
     f = mir.find(fns, "::range_query", "src/core/store/range.rs")
@@ -2455,7 +2903,7 @@ def site_range_query(fns):
 
     def init(it_, st):
         st["env"]["_4"] = limit
-    pushed = 0
+    pushed = exits = 0
     for p in it.run(init, start=hdr, stop=(hdr,)):
         ob.paths += 1
         if p.status not in ("backedge", "return"):
@@ -2469,6 +2917,15 @@ def site_range_query(fns):
         nx = [e for e in p.events if e.kind == "call" and e.callee.endswith("Entry::next")]
         if p.status == "backedge":
             ob.must_hold(len(nx) == 1, "a continuing iteration advances the cursor exactly once (entry.next())")
+        if p.status == "return" and p.ret is not None and it.entails(p.pc, it.ctx.disc(it.as_u(p.ret)) == 0)[0]:
+            # the scan ends with Ok only when the index is exhausted, the limit is reached or the upper bound is passed:
+            # entries that are skipped (expired, stale) neither end the scan nor count against the limit
+            if events(p, "Entry::key") or ln or gt:
+                exits += 1
+                ob.must_hold(bool(ln) and not rv, "the scan stops at an entry only through the limit / upper-bound test of that iteration")
+                if ln:
+                    ob.need(it, p.pc, z3.Or(z3.UGE(ln[0].ret, limit), gt[0].ret if gt else z3.BoolVal(False)),
+                            "the scan stops early only when results.len() >= limit or key > end_key")
         for e in rv:
             ob.must_hold(bool(ld) and idx_of(p, ld[-1]) < idx_of(p, e), "the value is resolved for a record loaded from the slot in this iteration")
             if ld:
@@ -2490,8 +2947,9 @@ def site_range_query(fns):
                              "the appended key is this entry's key")
                 ob.must_hold(contains(t.fields[1], it.as_u(rv[0].ret)), "the appended value is the one resolved for this entry")
     ob.must_hold(pushed >= 1, "the append site was reached")
+    ob.must_hold(exits >= 1, "the early-exit path was reached")
     ob.must_hold(re.search(r"lower_bound::<\[u8\]>", f.text) is not None and "Bound::<&[u8]>::Included" in f.text, "the scan starts at lower_bound(Included(start_key))")
-    return ob.result(it)
+    return ob.result(it, witness="c14_range_bounds_and_limit")
 
 
 def c14(fns, tier, env):
